@@ -167,7 +167,7 @@ func scenarioCfg(cfg *scenCfg) int {
 	w.f = counter.VerifNewFile()
 	w.c = w.f.NewCounter("c")
 
-	kind := Pick(rnd, []string{"plain", "open", "rot", "rot", "ext", "ext", "grow", "grow", "mix", "mix"})
+	kind := Pick(rnd, []string{"plain", "open", "rot", "rot", "ext", "ext", "grow", "grow", "mix", "mix", "openfull", "openfull"})
 	if cfg != nil {
 		kind = cfg.kind
 		out.Note("systematic-" + kind)
@@ -176,7 +176,35 @@ func scenarioCfg(cfg *scenCfg) int {
 	}
 	// ---- unmanaged setup ----
 	preAdds := 0
-	if kind == "open" {
+	if kind == "openfull" {
+		// an earlier process filled the first page of this week's file; this
+		// process has a pending increment and opens that file: the opener's own
+		// refresh-lookup extends it
+		f0 := counter.VerifNewFile()
+		f0.Rotate1()
+		for i := 0; ; i++ {
+			room := 16384 - int(f0.CurLimit())
+			if room <= 32 {
+				break
+			}
+			n := room - 32 - 16
+			if n > 4080 {
+				n = 4080
+			}
+			f0.Lookup(strings.Repeat(string(rune('A'+i%26)), n))
+		}
+		f0.Close()
+		vatomic.ResetClosed()
+		counter.VerifConcRelease()
+		preAdds = 1 + rnd.Intn(2)
+		if cfg != nil {
+			preAdds = 1
+		}
+		for i := 0; i < preAdds; i++ {
+			w.c.Add(int64(1 + rnd.Intn(3)))
+		}
+		w.f.Register(w.c)
+	} else if kind == "open" {
 		// counters incremented before the file is opened
 		preAdds = rnd.Intn(3)
 		if cfg != nil {
@@ -250,6 +278,9 @@ func scenarioCfg(cfg *scenCfg) int {
 		case 1:
 			specs = append(specs, tspec{"ext", 0}) // whoever looks up first extends the file
 		}
+	case "openfull":
+		// (one rotation only: whichever rotate1 runs first opens the existing file)
+		specs = append(specs, tspec{"rotf", 0})
 	case "mix":
 		// changers of both kinds: a rotation and one or two lookups of other
 		// (large) counters, of which the first one in a tight file extends it
@@ -268,7 +299,12 @@ func scenarioCfg(cfg *scenCfg) int {
 	}
 
 	// every rotate1 of the managed phase sees a later week
+	sameWeekOnce := kind == "openfull"
 	counter.CounterTime = func() time.Time {
+		if sameWeekOnce {
+			sameWeekOnce = false // the first open is of the existing file of this week
+			return w.now
+		}
 		w.now = w.now.Add(8 * 24 * time.Hour)
 		return w.now
 	}
@@ -347,7 +383,7 @@ func scenarioCfg(cfg *scenCfg) int {
 			case "add":
 				amt := sp.amt
 				fn = func() { w.c.Add(int64(amt)) }
-			case "rot":
+			case "rot", "rotf":
 				fn = func() { w.f.Rotate1() }
 			case "ext":
 				extN++
@@ -719,6 +755,7 @@ func systematic(k int) {
 		{kind: "grow", withPtr: false, specs: []tspec{{"add", 1}, {"add", 2}, {"rot", 0}}},
 		{kind: "mix", withPtr: true, specs: []tspec{{"add", 1}, {"rot", 0}, {"ext", 0}}},
 		{kind: "mix", withPtr: false, specs: []tspec{{"add", 1}, {"ext", 0}, {"rot", 0}}},
+		{kind: "openfull", withPtr: false, specs: []tspec{{"add", 1}, {"add", 2}, {"rotf", 0}}},
 	}
 	for _, b := range base {
 		c := b
